@@ -30,7 +30,7 @@ from __future__ import annotations
 import ast
 
 from ..repo import AnalysisError, FuncInfo, dotted, own_nodes
-from .common import resolve_root
+from .common import resolve_root, source_pos
 
 MANIFEST = {
     "text": (
@@ -104,6 +104,8 @@ def run(ctx):
     ):
         chk.rule(rid, txt)
     base, cone = _gen_classes(ctx)
+    _find_roles(ctx, base, cone)
+    chk.analysed["generator_roles"] = {k: (v.qualname if hasattr(v, "qualname") else v) for k, v in ROLE.items()}
     gen_cls = repo.find_class("GeneralInstanceGenerator")
     generate = gen_cls.methods.get("generate")
     cro = gen_cls.methods.get("create_random_operation")
@@ -195,7 +197,7 @@ def run(ctx):
             for n in own_nodes(m.node):
                 tgt = None
                 if isinstance(n, ast.Assign):
-                    tgt = [t for t in n.targets if isinstance(t, ast.Attribute) and t.attr == "_counter"]
+                    tgt = [t for t in n.targets if isinstance(t, ast.Attribute) and t.attr == ROLE["counter"] and ROLE["counter"]]
                     if tgt:
                         n_cw += 1
                         if m.name == "__init__" and isinstance(n.value, ast.Constant) and n.value.value == 0:
@@ -207,36 +209,99 @@ def run(ctx):
                                 "this generator are handed out again",
                                 loc=m.loc(n),
                             )
-                elif isinstance(n, ast.AugAssign) and isinstance(n.target, ast.Attribute) and n.target.attr == "_counter":
+                elif isinstance(n, ast.AugAssign) and isinstance(n.target, ast.Attribute) and ROLE["counter"] and n.target.attr == ROLE["counter"]:
                     n_cw += 1
                     if isinstance(n.op, ast.Add) and isinstance(n.value, ast.Constant) and n.value.value == 1:
                         chk.ok("R19.d", m.qualname, m.loc(n), "counter += 1")
                     else:
                         chk.violation("R19.d", m, n, f"the name counter is changed by `{ast.unparse(n)}`, not increased by one", loc=m.loc(n))
-    chk.floor("R19.d", n_cw, 2, "writes of the name counter")
-    nn = repo.method(gen_cls, "_next_name")
+    if ROLE["counter"] is not None:
+        chk.floor("R19.d", n_cw, 2, "writes of the name counter")
+    nn = ROLE["namer"]
     if nn is None:
-        raise AnalysisError("_next_name vanished")
-    rets = [r for r in own_nodes(nn.node) if isinstance(r, ast.Return)]
-    inc = [a for a in own_nodes(nn.node) if isinstance(a, ast.AugAssign)]
-    if len(rets) == 1 and "_counter" in ast.unparse(rets[0].value) and inc and inc[0].lineno < rets[0].lineno:
-        chk.ok("R19.d", nn.qualname, nn.loc(), "name embeds the freshly increased counter")
+        chk.violation("R19.d", generate, None, "no function of the generator builds the instance name from a counter it increases: names can repeat")
     else:
-        chk.violation("R19.d", nn, rets[0] if rets else None, "the instance name does not embed the freshly increased counter")
-    named = [
-        n for n in own_nodes(generate.node)
-        if isinstance(n, ast.Call) and repo.resolve(generate.module.name, dotted(n.func) or "") == repo.find_class("JobShopInstance").qualname
-    ]
-    if len(named) == 1 and any(k.arg == "name" and "_next_name()" in ast.unparse(k.value) for k in named[0].keywords):
-        chk.ok("R19.d", generate.qualname, generate.loc(named[0]), "every instance named by _next_name()")
-    else:
-        chk.violation("R19.d", generate, named[0] if named else None, "generate does not name the instance with _next_name()")
+        rets = [r for r in own_nodes(nn.node) if isinstance(r, ast.Return)]
+        inc = [a for a in own_nodes(nn.node) if isinstance(a, ast.AugAssign) and _self_attr(a.target) == ROLE["counter"]]
+        if len(rets) == 1 and inc and source_pos(nn.node)(inc[0]) < source_pos(nn.node)(rets[0]):
+            chk.ok("R19.d", nn.qualname, nn.loc(), "name embeds the freshly increased counter")
+        else:
+            chk.violation("R19.d", nn, rets[0] if rets else None, "the instance name does not embed the freshly increased counter")
+        if ROLE["iter"] is not None and ROLE["iter"] == ROLE["counter"]:
+            chk.violation(
+                "R19.d", nn, inc[0] if inc else None,
+                f"the name counter and the iteration count are the same attribute `self.{ROLE['counter']}`: restarting an "
+                "iteration restarts the names, and every generate() call eats one iteration",
+            )
+        gflat = ctx.norm.flat(generate)
+        named = [
+            n for n in own_nodes(gflat.node)
+            if isinstance(n, ast.Call) and repo.resolve(generate.module.name, dotted(n.func) or "") == repo.find_class("JobShopInstance").qualname
+        ]
+        def _named_by_counter(call):
+            for k in call.keywords:
+                if k.arg == "name":
+                    t = ctx.norm.xtext(gflat, k.value)
+                    return f"{nn.name}(" in t or f"self.{ROLE['counter']}" in t
+            return False
+        if len(named) == 1 and _named_by_counter(named[0]):
+            chk.ok("R19.d", generate.qualname, gflat.loc(named[0]), f"every instance named through {nn.name}()")
+        else:
+            chk.violation("R19.d", generate, named[0] if named else None, f"generate does not name the instance with {nn.name}()")
 
     # ---------------------------------------------------------------- R19.e
     _iterator(ctx, base)
 
     # ---------------------------------------------------------------- R19.f/g
     _pool_and_shape(ctx, gen_cls, generate, cro)
+
+
+ROLE = {"limit": "_iteration_limit", "iter": "_current_iteration", "counter": "_counter", "namer": None}
+
+
+def _self_attr(e):
+    if isinstance(e, ast.Attribute) and isinstance(e.value, ast.Name) and e.value.id == "self":
+        return e.attr
+    return None
+
+
+def _find_roles(ctx, base, cone):
+    """Attribute / helper names by the role they play (a rename of private
+    names is not an analysis error):
+    limit   - self.X = iteration_limit in the base constructor
+    iter    - the self attribute __next__ compares with the limit
+    counter - the self attribute increased in the function whose returned
+              string embeds it (the namer)"""
+    init = base.methods.get("__init__")
+    nxt = base.methods.get("__next__")
+    if init is None or nxt is None:
+        raise AnalysisError("InstanceGenerator.__init__/__next__ vanished")
+    limit = None
+    for n in own_nodes(init.node):
+        tgs = n.targets if isinstance(n, ast.Assign) else [n.target] if isinstance(n, ast.AnnAssign) and n.value is not None else []
+        for t in tgs:
+            if _self_attr(t) and isinstance(n.value, ast.Name) and n.value.id == "iteration_limit":
+                limit = t.attr
+    if limit is None:
+        raise AnalysisError("InstanceGenerator.__init__: attribute holding iteration_limit not found")
+    it = None
+    for n in own_nodes(nxt.node):
+        if isinstance(n, ast.Compare):
+            n = ctx.norm.xexpr(nxt, n)  # local aliases of the attributes expanded
+            attrs = [_self_attr(x) for x in [n.left] + list(n.comparators)]
+            if limit in attrs:
+                others = [a for a in attrs if a and a != limit]
+                if others:
+                    it = others[0]
+    counter = namer = None
+    for c in cone:
+        for m in c.methods.values():
+            incs = [a for a in own_nodes(m.node) if isinstance(a, ast.AugAssign) and _self_attr(a.target)]
+            rets = [r for r in own_nodes(m.node) if isinstance(r, ast.Return) and r.value is not None]
+            for a in incs:
+                if any(isinstance(r.value, (ast.JoinedStr, ast.BinOp, ast.Call)) and any(_self_attr(x) == a.target.attr for x in ast.walk(r.value)) for r in rets):
+                    counter, namer = a.target.attr, m
+    ROLE.update(limit=limit, iter=it, counter=counter, namer=namer)
 
 
 _DRAW_ONE = ("choice", "randint", "randrange")
@@ -395,7 +460,7 @@ def _iterator(ctx, base):
     ok = True
     n_ret = 0
     for p in eng.paths(nxt, base):
-        incs = [e for e in p.events if e.kind == "write" and not e.data.get("local") and "_current_iteration" in (e.data.get("chain") or [])]
+        incs = [e for e in p.events if e.kind == "write" and not e.data.get("local") and ROLE["iter"] is not None and ROLE["iter"] in (e.data.get("chain") or [])]
         if p.outcome == "raise":
             if p.events[-1].data.get("exc") != "StopIteration":
                 ok = False
@@ -414,8 +479,8 @@ def _iterator(ctx, base):
             chk.violation("R19.e", nxt, rv, "__next__ does not return self.generate()")
     from .common import path_atoms
 
-    A_LIM = "self._iteration_limit is None"
-    A_CMP = "self._current_iteration < self._iteration_limit"
+    A_LIM = f"self.{ROLE['limit']} is None"
+    A_CMP = f"self.{ROLE['iter']} < self.{ROLE['limit']}"
     saw_stop = False
     for p in eng.paths(nxt, base):
         atoms = path_atoms(ctx, p.events)
@@ -425,7 +490,7 @@ def _iterator(ctx, base):
             saw_stop = True
             if not (lim_set and reached):
                 # off-by-one and friends
-                strict = atoms.get("self._iteration_limit < self._current_iteration") is True
+                strict = atoms.get(f"self.{ROLE['limit']} < self.{ROLE['iter']}") is True
                 ok = False
                 chk.violation(
                     "R19.e", nxt, p.events[-1].node,
@@ -445,7 +510,7 @@ def _iterator(ctx, base):
         chk.ok("R19.e", nxt.qualname, nxt.loc(), "StopIteration at the limit; one increment; returns generate()")
     # __iter__
     writes = [n for n in own_nodes(it.node) if isinstance(n, (ast.Assign, ast.AugAssign))]
-    w_ok = any(isinstance(n, ast.Assign) and ast.unparse(n.targets[0]) == "self._current_iteration" and isinstance(n.value, ast.Constant) and n.value.value == 0 for n in writes)
+    w_ok = any(isinstance(n, ast.Assign) and ast.unparse(n.targets[0]) == f"self.{ROLE['iter']}" and isinstance(n.value, ast.Constant) and n.value.value == 0 for n in writes)
     r_ok = any(isinstance(n, ast.Return) and ast.unparse(n.value) == "self" for n in own_nodes(it.node))
     if w_ok and r_ok:
         chk.ok("R19.e", it.qualname, it.loc(), "restarts the iteration count, returns self")
@@ -454,7 +519,7 @@ def _iterator(ctx, base):
     ln = base.methods.get("__len__")
     if ln is not None:
         rets = [n for n in own_nodes(ln.node) if isinstance(n, ast.Return)]
-        if rets and all(ctx.norm.xtext(ln, r.value) == "self._iteration_limit" for r in rets):
+        if rets and all(ctx.norm.xtext(ln, r.value) == f"self.{ROLE['limit']}" for r in rets):
             chk.ok("R19.e", ln.qualname, ln.loc(), "len = iteration limit")
         else:
             chk.violation("R19.e", ln, rets[-1] if rets else None, "__len__ is not the iteration limit")
@@ -532,7 +597,38 @@ def _pool_and_shape(ctx, gen_cls, generate_raw, cro):
     if pool is None:
         raise AnalysisError("generate: pool passed to create_random_operation not recognised")
     in_loop = [n for n in o.body if isinstance(n, ast.Assign) and ast.unparse(n.targets[0]) == pool]
-    if in_loop and all(xt(n.value) == "list(range(num_machines))" for n in in_loop):
+    def fresh_full_pool(v):
+        """list(range(num_machines)), possibly through a one-level copy of a
+        template that is itself that list and is never mutated or handed out."""
+        x = v
+        root = None
+        for _ in range(3):
+            if isinstance(x, ast.Call) and isinstance(x.func, ast.Attribute) and x.func.attr == "copy" and not x.args:
+                x = x.func.value
+            elif isinstance(x, ast.Call) and isinstance(x.func, ast.Name) and x.func.id == "list" and len(x.args) == 1 and not isinstance(x.args[0], ast.Call):
+                x = x.args[0]
+            elif isinstance(x, ast.Subscript) and isinstance(x.slice, ast.Slice) and x.slice.lower is None and x.slice.upper is None and x.slice.step is None:
+                x = x.value
+            else:
+                break
+        if isinstance(x, ast.Name) and x is not v:
+            root = x.id
+            touched = [
+                c for c in own_nodes(generate.node)
+                if isinstance(c, ast.Call) and (
+                    (isinstance(c.func, ast.Attribute) and isinstance(c.func.value, ast.Name) and c.func.value.id == root
+                     and c.func.attr in ("remove", "pop", "append", "extend", "clear", "sort", "reverse", "insert"))
+                    or any(isinstance(a, ast.Name) and a.id == root for a in list(c.args) + [k.value for k in c.keywords])
+                    and not (isinstance(c.func, ast.Name) and c.func.id in ("list", "len", "tuple", "sorted"))
+                )
+            ]
+            if touched:
+                return False
+        return xt(x if x is not v else v).replace(" ", "") in ("list(range(num_machines))", "range(num_machines)") and (
+            x is not v or xt(v).replace(" ", "") == "list(range(num_machines))"
+        )
+
+    if in_loop and all(fresh_full_pool(n.value) for n in in_loop):
         chk.ok("R19.f", generate_raw.qualname, generate.loc(in_loop[0]), "machine pool re-created for every job")
     else:
         chk.violation(
@@ -541,9 +637,9 @@ def _pool_and_shape(ctx, gen_cls, generate_raw, cro):
             "second job on the pool is exhausted or stale",
             loc=generate.loc(o),
         )
-    one = gen_cls.methods.get("_choose_one_machine")
-    if one is None:
-        raise AnalysisError("_choose_one_machine vanished")
+    # judged on the flattened create_random_operation (the private
+    # single-machine helper inlined), so its name does not matter
+    one = ctx.norm.flat(cro, depth=3)
     rm = None
     for n in own_nodes(one.node):
         if isinstance(n, ast.If) and ast.unparse(n.test) == "not self.allow_recirculation":
